@@ -13,9 +13,10 @@ git -C /repo worktree add --detach "$wt" HEAD >/dev/null 2>&1 || { echo "$id wor
 trap 'git -C /repo worktree remove --force "$wt" >/dev/null 2>&1' EXIT
 demo=$(ls "$d"/*_test.go | head -1)
 cp "$demo" "$wt/$pkg/"
-(cd "$wt" && go test -vet=off -count=1 ./$pkg/ -run 'Seed|seed|Demo|demo' >/tmp/sv-$id.clean.log 2>&1); clean=$?
+run=$(grep -o '^func Test[A-Za-z0-9_]*' "$demo" | sed 's/func //' | paste -sd'|')
+(cd "$wt" && go test -vet=off -count=1 ./$pkg/ -run "^($run)\$" >/tmp/sv-$id.clean.log 2>&1); clean=$?
 git -C "$wt" apply "$d/patch.diff" || { echo "$id patch does not apply"; exit 2; }
-(cd "$wt" && go test -vet=off -count=1 ./$pkg/ -run 'Seed|seed|Demo|demo' >/tmp/sv-$id.patched.log 2>&1); patched=$?
+(cd "$wt" && go test -vet=off -count=1 ./$pkg/ -run "^($run)\$" >/tmp/sv-$id.patched.log 2>&1); patched=$?
 rm "$wt/$pkg/$(basename "$demo")"
 (cd "$wt" && go build ./... >/tmp/sv-$id.build.log 2>&1); build=$?
 (cd "$wt" && go test -vet=off -count=1 ./... >/tmp/sv-$id.suite.log 2>&1); suite=$?
